@@ -64,7 +64,7 @@ def configs_along(script, recs):
     cfg, out, changed = script['config'], [], False
     for rec in recs:
         ev = script['events'][rec['seq']] if rec['seq'] >= 0 else {}
-        if ev.get('op') == 'Reconfigure' and rec['reply']['class'] == 'ok':
+        if ev.get('op') == 'Reconfigure' and rec['reply']['class'] == 'ok' and ev['config'] != '__CURRENT__':
             cfg = ev['config']
             changed = changed or ev.get('tag') == 'new'
         if ev.get('op') == 'Restart' and ev.get('config'):
